@@ -17,6 +17,103 @@ def norm(e: ast.AST | None) -> str:
     return ast.unparse(e) if e is not None else "<none>"
 
 
+def check_consumer(ctx: Context, rep, rule: str):
+    imap = ctx.fn(f"{LP}:LazyPool.imap_unordered")
+    # -- consumer -----------------------------------------------------------------
+    rep.rule(
+        rule,
+        "in imap_unordered, per dequeued result: a sentinel only decrements "
+        "the active counter by one; a failure is re-raised; any other result "
+        "causes exactly one enqueue of the next input and exactly one yield "
+        "of that result; the loop runs while the active counter is positive")
+    ccfg = ctx.cfg(imap)
+    whiles = [n for n in ccfg.nodes if n.kind == "loop"]
+    loop = None
+    for w in whiles:
+        if "_active_threads" in norm(w.ast.test):
+            loop = w
+    if loop is None:
+        raise AnalysisError("C13.consumer: consumer loop not found")
+    test = loop.ast.test
+    ok_test = isinstance(test, ast.Compare) and len(test.ops) == 1 and (
+        (isinstance(test.ops[0], ast.Gt) and norm(test.comparators[0]) == "0") or
+        (isinstance(test.ops[0], ast.GtE) and norm(test.comparators[0]) == "1")
+        or (isinstance(test.ops[0], ast.NotEq) and norm(test.comparators[0]) == "0"))
+    rep.ob(rule, ok_test, loc=imap.loc(test), where=imap.qualname,
+           construct=f"while {norm(test)}",
+           message="the pass ends exactly when every worker has returned its "
+           "sentinel")
+    body_nodes = [n for n in ccfg.nodes if n.ast is not None and any(
+        n.stmt is s or any(n.stmt is x for x in ast.walk(s))
+        for s in loop.ast.body)]
+    gets = [n for n in body_nodes if n.kind == "call" and isinstance(
+        n.ast.func, ast.Attribute) and n.ast.func.attr == "get" and
+            "_results" in norm(n.ast.func.value)]
+    puts = [n for n in body_nodes if n.kind == "call" and isinstance(
+        n.ast.func, ast.Attribute) and n.ast.func.attr == "put" and
+            "_to_process" in norm(n.ast.func.value)]
+    yields = [n for n in body_nodes if n.kind == "yield"]
+    decs = [n for n in body_nodes if n.kind == "stmt" and isinstance(
+        n.ast, ast.AugAssign) and "_active_threads" in norm(n.ast.target)]
+    rep.ob(rule, len(gets) == 1 and not gets[0].ast.args and
+           not gets[0].ast.keywords, loc=imap.loc(gets[0].ast) if gets else
+           imap.loc(), where=imap.qualname,
+           construct=norm(gets[0].ast) if gets else "<none>",
+           message="one blocking dequeue per round")
+    sent = [n for n in body_nodes if n.kind == "test" and "StopSentinel" in
+            norm(n.ast) and "isinstance" in norm(n.ast)]
+    if len(sent) != 1 or not gets:
+        raise AnalysisError("C13.consumer: sentinel test not found")
+    s = sent[0]
+    true_succ = [m for m, lab in s.succ if lab == "true"]
+    false_succ = [m for m, lab in s.succ if lab == "false"]
+    nofollow_exc = lambda a, b, lab: lab not in ("exc", "raise")  # noqa: E731
+    sent_region = ccfg.reachable(true_succ, avoiding=[loop], follow=nofollow_exc)
+    ok_sent = (len([d for d in decs if d in sent_region]) == 1 and
+               not any(p in sent_region for p in puts) and
+               not any(y in sent_region for y in yields))
+    dec_ok = all(isinstance(d.ast.op, ast.Sub) and norm(d.ast.value) == "1"
+                 for d in decs) and all(d in sent_region for d in decs)
+    rep.ob(rule, ok_sent and dec_ok, loc=imap.loc(s.ast),
+           where=imap.qualname,
+           construct="sentinel: " + "; ".join(norm(d.ast) for d in decs),
+           message="a sentinel decrements the active counter by exactly one "
+           "and neither enqueues nor yields; the counter is decremented "
+           "nowhere else")
+    # normal result region
+    region_ok = ccfg.reachable(false_succ, avoiding=[loop], follow=nofollow_exc)
+    for label, nodes in (("enqueue of the next input", puts),
+                         ("yield of the result", yields)):
+        in_region = [n for n in nodes if n in region_ok]
+        skip = ccfg.reachable(false_succ, avoiding=in_region,
+                              follow=nofollow_exc)
+        missing = loop in skip or ccfg.exit in skip
+        twice = False
+        for n in in_region:
+            after = ccfg.reachable([n], avoiding=[loop], strict=True,
+                                   follow=nofollow_exc)
+            if any(m in after for m in in_region):
+                twice = True
+        rep.ob(rule, bool(in_region) and not missing and not twice,
+               loc=imap.loc(in_region[0].ast) if in_region else imap.loc(),
+               where=imap.qualname,
+               construct=f"{label}: {len(in_region)} site(s)",
+               message=f"exactly one {label} per dequeued result "
+               f"(missing on some path: {missing}, repeated: {twice})")
+    # what is yielded is what was dequeued
+    got = [n.stmt.targets[0].id for n in gets if isinstance(n.stmt, ast.Assign)
+           and isinstance(n.stmt.targets[0], ast.Name)] + [
+               n.stmt.target.id for n in gets if isinstance(n.stmt, ast.AnnAssign)
+               and isinstance(n.stmt.target, ast.Name)]
+    for y in yields:
+        rep.ob(rule, isinstance(y.ast, ast.Yield) and isinstance(
+            y.ast.value, ast.Name) and y.ast.value.id in got,
+               loc=imap.loc(y.ast), where=imap.qualname, construct=norm(y.ast),
+               message="the value yielded is the dequeued result")
+
+    return puts, ccfg
+
+
 def run(ctx: Context, rep) -> None:
     rep.not_decided = (
         "correctness under all thread interleavings, the relation of the "
@@ -134,97 +231,9 @@ def run(ctx: Context, rep) -> None:
            construct=norm(gets[0]) if gets else "<none>",
            message="one blocking get per round on the to-process queue")
 
-    # -- consumer -----------------------------------------------------------------
-    rep.rule(
-        "C13.consumer",
-        "in imap_unordered, per dequeued result: a sentinel only decrements "
-        "the active counter by one; a failure is re-raised; any other result "
-        "causes exactly one enqueue of the next input and exactly one yield "
-        "of that result; the loop runs while the active counter is positive")
-    ccfg = ctx.cfg(imap)
-    whiles = [n for n in ccfg.nodes if n.kind == "loop"]
-    loop = None
-    for w in whiles:
-        if "_active_threads" in norm(w.ast.test):
-            loop = w
-    if loop is None:
-        raise AnalysisError("C13.consumer: consumer loop not found")
-    test = loop.ast.test
-    ok_test = isinstance(test, ast.Compare) and len(test.ops) == 1 and (
-        (isinstance(test.ops[0], ast.Gt) and norm(test.comparators[0]) == "0") or
-        (isinstance(test.ops[0], ast.GtE) and norm(test.comparators[0]) == "1")
-        or (isinstance(test.ops[0], ast.NotEq) and norm(test.comparators[0]) == "0"))
-    rep.ob("C13.consumer", ok_test, loc=imap.loc(test), where=imap.qualname,
-           construct=f"while {norm(test)}",
-           message="the pass ends exactly when every worker has returned its "
-           "sentinel")
-    body_nodes = [n for n in ccfg.nodes if n.ast is not None and any(
-        n.stmt is s or any(n.stmt is x for x in ast.walk(s))
-        for s in loop.ast.body)]
-    gets = [n for n in body_nodes if n.kind == "call" and isinstance(
-        n.ast.func, ast.Attribute) and n.ast.func.attr == "get" and
-            "_results" in norm(n.ast.func.value)]
-    puts = [n for n in body_nodes if n.kind == "call" and isinstance(
-        n.ast.func, ast.Attribute) and n.ast.func.attr == "put" and
-            "_to_process" in norm(n.ast.func.value)]
-    yields = [n for n in body_nodes if n.kind == "yield"]
-    decs = [n for n in body_nodes if n.kind == "stmt" and isinstance(
-        n.ast, ast.AugAssign) and "_active_threads" in norm(n.ast.target)]
-    rep.ob("C13.consumer", len(gets) == 1 and not gets[0].ast.args and
-           not gets[0].ast.keywords, loc=imap.loc(gets[0].ast) if gets else
-           imap.loc(), where=imap.qualname,
-           construct=norm(gets[0].ast) if gets else "<none>",
-           message="one blocking dequeue per round")
-    sent = [n for n in body_nodes if n.kind == "test" and "StopSentinel" in
-            norm(n.ast) and "isinstance" in norm(n.ast)]
-    if len(sent) != 1 or not gets:
-        raise AnalysisError("C13.consumer: sentinel test not found")
-    s = sent[0]
-    true_succ = [m for m, lab in s.succ if lab == "true"]
-    false_succ = [m for m, lab in s.succ if lab == "false"]
-    nofollow_exc = lambda a, b, lab: lab not in ("exc", "raise")  # noqa: E731
-    sent_region = ccfg.reachable(true_succ, avoiding=[loop], follow=nofollow_exc)
-    ok_sent = (len([d for d in decs if d in sent_region]) == 1 and
-               not any(p in sent_region for p in puts) and
-               not any(y in sent_region for y in yields))
-    dec_ok = all(isinstance(d.ast.op, ast.Sub) and norm(d.ast.value) == "1"
-                 for d in decs) and all(d in sent_region for d in decs)
-    rep.ob("C13.consumer", ok_sent and dec_ok, loc=imap.loc(s.ast),
-           where=imap.qualname,
-           construct="sentinel: " + "; ".join(norm(d.ast) for d in decs),
-           message="a sentinel decrements the active counter by exactly one "
-           "and neither enqueues nor yields; the counter is decremented "
-           "nowhere else")
-    # normal result region
-    region_ok = ccfg.reachable(false_succ, avoiding=[loop], follow=nofollow_exc)
-    for label, nodes in (("enqueue of the next input", puts),
-                         ("yield of the result", yields)):
-        in_region = [n for n in nodes if n in region_ok]
-        skip = ccfg.reachable(false_succ, avoiding=in_region,
-                              follow=nofollow_exc)
-        missing = loop in skip or ccfg.exit in skip
-        twice = False
-        for n in in_region:
-            after = ccfg.reachable([n], avoiding=[loop], strict=True,
-                                   follow=nofollow_exc)
-            if any(m in after for m in in_region):
-                twice = True
-        rep.ob("C13.consumer", bool(in_region) and not missing and not twice,
-               loc=imap.loc(in_region[0].ast) if in_region else imap.loc(),
-               where=imap.qualname,
-               construct=f"{label}: {len(in_region)} site(s)",
-               message=f"exactly one {label} per dequeued result "
-               f"(missing on some path: {missing}, repeated: {twice})")
-    # what is yielded is what was dequeued
-    got = [n.stmt.targets[0].id for n in gets if isinstance(n.stmt, ast.Assign)
-           and isinstance(n.stmt.targets[0], ast.Name)] + [
-               n.stmt.target.id for n in gets if isinstance(n.stmt, ast.AnnAssign)
-               and isinstance(n.stmt.target, ast.Name)]
-    for y in yields:
-        rep.ob("C13.consumer", isinstance(y.ast, ast.Yield) and isinstance(
-            y.ast.value, ast.Name) and y.ast.value.id in got,
-               loc=imap.loc(y.ast), where=imap.qualname, construct=norm(y.ast),
-               message="the value yielded is the dequeued result")
+    puts, imap_cfg = check_consumer(ctx, rep, "C13.consumer")
+    ccfg = imap_cfg
+    loop = [w for w in ccfg.nodes if w.kind == "loop" and "_active_threads" in norm(w.ast.test)][0]
 
     # -- tail ---------------------------------------------------------------------
     rep.rule(
@@ -270,6 +279,53 @@ def run(ctx: Context, rep) -> None:
            where=imap.qualname,
            construct=f"pulled from {sorted(pulled)}, iter() bound {sorted(bound)}",
            message="prefill and refill pull from one shared iterator object")
+
+    # -- queue ownership ----------------------------------------------------------------
+    rep.rule(
+        "C13.owner",
+        "queue ownership: only the workers take from the to-process queue "
+        "and only the pool puts into it; only the workers put into the "
+        "results queue and only the consumer (imap_unordered) takes from it; "
+        "every take is a plain blocking get() and nobody polls empty()/qsize() "
+        "to decide about a blocking operation (check-then-act races)")
+    lp_mod = ctx.repo.module(LP)
+    expected = {
+        ("_to_process", "get"): {"Collector.run"},
+        ("_to_process", "put"): {"LazyPool.imap_unordered",
+                                 "LazyPool.finish_and_reset"},
+        ("_results", "put"): {"Collector.run"},
+        ("_results", "get"): {"LazyPool.imap_unordered"},
+    }
+    n_q = 0
+    for f in lp_mod.functions.values():
+        for c in f.calls():
+            if not isinstance(c.func, ast.Attribute):
+                continue
+            recv = dotted(c.func.value) or ""
+            q = "_to_process" if recv.endswith("_to_process") else (
+                "_results" if recv.endswith("_results") else None)
+            if q is None:
+                continue
+            m = c.func.attr
+            n_q += 1
+            if m in ("get", "put"):
+                rep.ob("C13.owner", f.qualname in expected[(q, m)],
+                       loc=f.loc(c), where=f.qualname, construct=short(c),
+                       message=f"{q}.{m}() belongs to "
+                       f"{sorted(expected[(q, m)])}")
+                rep.ob("C13.owner", not c.keywords and len(c.args) == (
+                    1 if m == "put" else 0), loc=f.loc(c), where=f.qualname,
+                       construct=short(c) + " (blocking, no timeout)",
+                       message="queue operations are plain blocking calls",
+                       sample=False)
+            else:
+                rep.ob("C13.owner", False, loc=f.loc(c), where=f.qualname,
+                       construct=short(c),
+                       message=f"`{m}` on a protocol queue: polling the queue "
+                       "state or non-blocking access opens a check-then-act "
+                       "race with the other threads")
+    if n_q < 6 and not rep.violations:
+        raise AnalysisError(f"C13.owner: {n_q} queue operations, floor 6")
 
     # -- reset ----------------------------------------------------------------------
     rep.rule(
@@ -345,6 +401,9 @@ SELFTESTS = [
     dict(rule="C13.sentinel", name="worker-keeps-running-after-sentinel", expect="fire", path=_LP,
          old="                self._results.put(element)\n                return\n",
          new="                self._results.put(element)\n                continue\n"),
+    dict(rule="C13.owner", name="consumer-drains-to-process", expect="fire", path=_LP,
+         old="                # Stop the workers and let the consumer know.\n                self.finish_and_reset()\n",
+         new="                while not self._to_process.empty():\n                    self._to_process.get()\n                self.finish_and_reset()\n"),
     dict(rule="C13.tail", name="no-sentinel-tail", expect="fire", path=_LP,
          old="            iterable, itertools.cycle([StopSentinel()]))",
          new="            iterable, [StopSentinel()] * self._threads)"),
